@@ -1356,23 +1356,6 @@ func c06Enumerate(thorough bool, visit func(family string, cfg *c06Config) bool)
 			}
 		}
 	}
-	// ... and, thorough, the same product with codecs and compressions left to their defaults
-	if thorough {
-		for fi := 0; fi < 2187; fi++ {
-			flags := c06FlagsFromIndex(fi)
-			for vs := 0; vs < 8; vs++ {
-				for ps := 0; ps < 8; ps++ {
-					for _, ss := range streamSubsets {
-						cfg := c06Config{Versions: vs, Protocols: ps, StreamTypes: ss, Flags: flags}
-						if !visit("A-features-default-codecs", &cfg) {
-							return
-						}
-					}
-				}
-			}
-		}
-	}
-
 	// Family C: codec and compression choices of the design (6 x 4) on all
 	// version/protocol subsets with the transport flags.
 	codecChoices := []int{0, 1 << 0, 1 << 1, 1<<0 | 1<<1, 1 << 2, 1<<0 | 1<<2}
@@ -1502,6 +1485,23 @@ func c06Enumerate(thorough bool, visit func(family string, cfg *c06Config) bool)
 							if !visit("B-four-entries", &cfg) {
 								return
 							}
+						}
+					}
+				}
+			}
+		}
+	}
+
+	// Family A again (thorough, last): the same product with codecs and compressions left to their defaults.
+	if thorough {
+		for fi := 0; fi < 2187; fi++ {
+			flags := c06FlagsFromIndex(fi)
+			for vs := 0; vs < 8; vs++ {
+				for ps := 0; ps < 8; ps++ {
+					for _, ss := range streamSubsets {
+						cfg := c06Config{Versions: vs, Protocols: ps, StreamTypes: ss, Flags: flags}
+						if !visit("A-features-default-codecs", &cfg) {
+							return
 						}
 					}
 				}
